@@ -1754,10 +1754,10 @@ class EAStorySwap(ElementAction):
             raise MosMergeError(
                 f"{self.__class__.__name__} error in {self.message_id} - story 2 not found"
             )
-        remove_node(parent=ro.base_tag, node=story1)
-        remove_node(parent=ro.base_tag, node=story2)
-        insert_node(parent=ro.base_tag, node=story2, index=story1_index)
-        insert_node(parent=ro.base_tag, node=story1, index=story2_index)
+        # exchange in place: removing and re-inserting is only correct when
+        # story 1 comes first, and loses the story when both IDs are the same
+        ro.base_tag[story1_index] = story2
+        ro.base_tag[story2_index] = story1
         return ro
 
     def inspect(self):
@@ -1827,10 +1827,10 @@ class EAItemSwap(ElementAction):
             raise MosMergeError(
                 f"{self.__class__.__name__} error in {self.message_id} - item 2 not found"
             )
-        remove_node(parent=story, node=item1)
-        remove_node(parent=story, node=item2)
-        insert_node(parent=story, node=item2, index=item1_index)
-        insert_node(parent=story, node=item1, index=item2_index)
+        # exchange in place: removing and re-inserting is only correct when
+        # item 1 comes first, and loses the item when both IDs are the same
+        story[item1_index] = item2
+        story[item2_index] = item1
         return ro
 
     def inspect(self):
